@@ -11,6 +11,11 @@
 From Coq Require Import List NArith Permutation.
 From Astisub Require Import Kit.Base Kit.GoMap Model.Srt Model.Vtt Proofs.VttIOProofs.
 From Astisub Require Import Model.Ssa Proofs.SsaOrder.
+   (C12_merge_order_independent); (4) the EBU STL writer ranges over no map and has one hidden input, the clock
+   (Now()), which the model takes as an argument: the bytes depend on it only through the creation and revision date
+   fields of the GSI block (offsets 224..235) and not at all when the metadata supplies both dates.  Purity ("no writer modifies the list") and the byte-level determinism of the
+   WebVTT/SSA/TTML writers (and of the STL writer on the real clock) are established by the harness (50 repetitions x 5 processes x 6 writer
+From Astisub Require Import Model.Stl Proofs.StlClock.
 Import ListNotations.
 
 Theorem C19_sorted_range_independent : forall (V A : Type) (m : list (N * V)) (order order' : list N)
@@ -32,6 +37,21 @@ Proof. exact write_vtt_order_independent. Qed.
    line, Style rows, events) do not depend on it *)
 Theorem C19_ssa_deterministic : forall d order order', Permutation order order' -> write_ssa d order = write_ssa d order'.
 Proof. exact write_order_independent. Qed.
+
+(* EBU STL: the clock is the only hidden input *)
+Theorem C19_stl_deterministic : forall now now' md md' items items',
+  now = now' -> md = md' -> items = items' -> write_stl now md items = write_stl now' md' items'.
+Proof. exact write_stl_deterministic. Qed.
+Theorem C19_stl_clock_only_when_dates_absent : forall now now' m c r items,
+  wm_cd m = Some c -> wm_rd m = Some r -> write_stl now (Some m) items = write_stl now' (Some m) items.
+Proof. exact clock_unused_with_dates. Qed.
+Theorem C19_stl_clock_only_in_dates : forall now now' md items out out',
+  write_stl now md items = Ok out -> write_stl now' md items = Ok out' ->
+  firstn 224 out = firstn 224 out' /\ skipn 236 out = skipn 236 out'.
+Proof. exact clock_only_dates. Qed.
+Print Assumptions C19_stl_deterministic.
+Print Assumptions C19_stl_clock_only_when_dates_absent.
+Print Assumptions C19_stl_clock_only_in_dates.
 
 Example C19_example : nsort [3; 1; 2]%N = nsort [2; 3; 1]%N. Proof. reflexivity. Qed.
 
